@@ -7,12 +7,34 @@ From Proofs Require Import C04_sort C04_proofs C07_proofs C01_frontend_sig.
 Import ListNotations.
 Open Scope Z_scope.
 
-(* ================================================================ track well-formedness (notes only) *)
-(* only WAIT / NOTE_ON / NOTE_OFF messages *)
-Definition msg_ok (m : msg) : bool := is_wait m || is_note m.
-(* non-negative waits; only waits and notes; the signature of every pitch that occurs is well formed *)
-Definition sig_track_ok (r : list msg) : bool :=
-  wfr r && forallb msg_ok r && forallb (fun m => negb (is_note m) || sig_ok (psig (m_note m) 0 r)) r.
+(* ================================================================ track well-formedness *)
+(* WAIT / NOTE_ON / NOTE_OFF messages, and TIME_SIGNATURE messages on track 0 only *)
+Definition msg_ok (i : Z) (m : msg) : bool := is_wait m || is_note m || (is_ts m && (i =? 0)).
+
+Fixpoint sincrZ (l : list Z) : bool :=
+  match l with
+  | [] => true
+  | x :: l' => match l' with [] => true | y :: _ => (x <? y) && sincrZ l' end
+  end.
+
+(* ticks of the TIME_SIGNATURE messages of a relative track *)
+Definition ts_ticks (r : list msg) : list Z := map (fun x => fst (fst x)) (tsv (ev_rel r)).
+
+(* non-negative waits; allowed message types; the signature of every pitch that occurs is well formed; at most one
+   time signature per tick; no time signature repeats the one in force (such a message is dropped by normalise) *)
+Definition track_ok (i : Z) (r : list msg) : bool :=
+  wfr r && forallb (msg_ok i) r && forallb (fun m => negb (is_note m) || sig_ok (psig (m_note m) 0 r)) r &&
+  sincrZ (ts_ticks r) && ts_ok (NONE, NONE) r.
+Fixpoint tracks_ok (j : Z) (tracks : list (list msg)) : bool :=
+  match tracks with [] => true | r :: ts => track_ok j r && tracks_ok (j + 1) ts end.
+
+Lemma sincrZ_FOP l : sincrZ l = true -> ForallOrdPairs Z.lt l.
+Proof.
+  induction l as [|x l IH]; intros H; [constructor|]. destruct l as [|y l]; [repeat constructor|].
+  cbn [sincrZ] in H. apply andb_prop in H. destruct H as [Hxy Hl]. apply Z.ltb_lt in Hxy. specialize (IH Hl).
+  constructor; [|exact IH]. inversion IH as [|? ? Hy _]; subst. constructor; [exact Hxy|].
+  eapply Forall_impl; [|exact Hy]. cbn beta. intros z Hz. lia.
+Qed.
 
 Lemma psig_nil n r : (forall m, In m r -> is_note m = true -> m_note m <> n) -> forall cur, psig n cur r = [].
 Proof.
@@ -24,23 +46,27 @@ Proof.
   exfalso. apply (H m (or_introl eq_refl) En). now symmetry.
 Qed.
 
-Lemma sig_track_ok_parts r : sig_track_ok r = true ->
-  wfr r = true /\ (forall m, In m r -> msg_ok m = true) /\ forall n, sig_ok (psig n 0 r) = true.
+Lemma track_ok_parts i r : track_ok i r = true ->
+  wfr r = true /\ (forall m, In m r -> msg_ok i m = true) /\ (forall n, sig_ok (psig n 0 r) = true) /\
+  ForallOrdPairs elt (tsig (ev_rel r)) /\ ts_ok (NONE, NONE) r = true.
 Proof.
-  unfold sig_track_ok. intros H. apply andb_prop in H. destruct H as [H H3]. apply andb_prop in H. destruct H as [H1 H2].
-  split; [exact H1|]. split; [now apply forallb_forall|].
-  intros n. rewrite forallb_forall in H3.
-  destruct (existsb (fun m => is_note m && (m_note m =? n)) r) eqn:E.
-  - apply existsb_exists in E. destruct E as (m & Hm & E). apply andb_prop in E. destruct E as [E1 E2].
-    apply Z.eqb_eq in E2. subst n. specialize (H3 m Hm). now rewrite E1 in H3.
-  - rewrite psig_nil; [reflexivity|]. intros m Hm Hn Heq.
-    assert (existsb (fun m => is_note m && (m_note m =? n)) r = true); [|congruence].
-    apply existsb_exists. exists m. split; [exact Hm|]. rewrite Hn. now apply Z.eqb_eq.
+  unfold track_ok. intros H. apply andb_prop in H. destruct H as [H H5]. apply andb_prop in H. destruct H as [H H4].
+  apply andb_prop in H. destruct H as [H H3]. apply andb_prop in H. destruct H as [H1 H2].
+  split; [exact H1|]. split; [now apply forallb_forall|]. split; [|split; [|exact H5]].
+  - intros n. rewrite forallb_forall in H3.
+    destruct (existsb (fun m => is_note m && (m_note m =? n)) r) eqn:E.
+    + apply existsb_exists in E. destruct E as (m & Hm & E). apply andb_prop in E. destruct E as [E1 E2].
+      apply Z.eqb_eq in E2. subst n. specialize (H3 m Hm). now rewrite E1 in H3.
+    + rewrite psig_nil; [reflexivity|]. intros m Hm Hn Heq.
+      assert (existsb (fun m => is_note m && (m_note m =? n)) r = true); [|congruence].
+      apply existsb_exists. exists m. split; [exact Hm|]. rewrite Hn. now apply Z.eqb_eq.
+  - apply FOP_elt_tsv. apply sincrZ_FOP in H4. unfold ts_ticks in H4. revert H4. apply FOP_map_inv.
+    intros x y _ _ Hxy. exact Hxy.
 Qed.
 
-Lemma psig_sle n r : sig_track_ok r = true -> ForallOrdPairs sle (psig n 0 r).
+Lemma psig_sle i n r : track_ok i r = true -> ForallOrdPairs sle (psig n 0 r).
 Proof.
-  intros H. destruct (sig_track_ok_parts r H) as (Hw & _ & Hs).
+  intros H. destruct (track_ok_parts i r H) as (Hw & _ & Hs & _).
   apply sig_ok_sle; [apply Hs|]. now apply psig_times.
 Qed.
 
@@ -63,16 +89,35 @@ Fixpoint piece_sig (j : Z) (tracks : list (list msg)) (k : k2) : list sigent :=
 (* duration of the longest track *)
 Definition piece_dur (tracks : list (list msg)) : Z := fold_right Z.max 0 (map dur_rel tracks).
 
-Lemma piece_sig_sle tracks k : Forall (fun r => sig_track_ok r = true) tracks -> forall j, ForallOrdPairs sle (piece_sig j tracks k).
+Lemma piece_sig_sle tracks k : forall j, tracks_ok j tracks = true -> ForallOrdPairs sle (piece_sig j tracks k).
 Proof.
-  induction 1 as [|r ts Hr _ IH]; intros j; cbn [piece_sig]; [constructor|].
-  destruct (fst k =? j); [now apply psig_sle|apply IH].
+  induction tracks as [|r ts IH]; intros j H; cbn [piece_sig]; [constructor|].
+  cbn [tracks_ok] in H. apply andb_prop in H. destruct H as [Hr Hts].
+  destruct (fst k =? j); [now apply psig_sle with j|now apply IH].
 Qed.
 
-Lemma piece_sig_ok tracks k : Forall (fun r => sig_track_ok r = true) tracks -> forall j, sig_ok (piece_sig j tracks k) = true.
+Lemma piece_sig_ok tracks k : forall j, tracks_ok j tracks = true -> sig_ok (piece_sig j tracks k) = true.
 Proof.
-  induction 1 as [|r ts Hr _ IH]; intros j; cbn [piece_sig]; [reflexivity|].
-  destruct (fst k =? j); [now apply sig_track_ok_parts|apply IH].
+  induction tracks as [|r ts IH]; intros j H; cbn [piece_sig]; [reflexivity|].
+  cbn [tracks_ok] in H. apply andb_prop in H. destruct H as [Hr Hts].
+  destruct (fst k =? j); [now apply (track_ok_parts j r Hr)|now apply IH].
+Qed.
+
+Lemma tracks_ok_wfr tracks : forall j, tracks_ok j tracks = true -> forall r, In r tracks -> wfr r = true.
+Proof.
+  induction tracks as [|r0 ts IH]; intros j H r Hr; [destruct Hr|].
+  cbn [tracks_ok] in H. apply andb_prop in H. destruct H as [H0 Hts]. destruct Hr as [<-|Hr].
+  - now apply (track_ok_parts j r0 H0).
+  - now apply IH with (j + 1).
+Qed.
+
+Lemma tracks_ok_nth tracks : forall j n r, tracks_ok j tracks = true -> nth_error tracks n = Some r ->
+  track_ok (j + Z.of_nat n) r = true.
+Proof.
+  induction tracks as [|r0 ts IH]; intros j n r H Hn; [destruct n; discriminate|].
+  cbn [tracks_ok] in H. apply andb_prop in H. destruct H as [H0 Hts]. destruct n as [|n]; cbn [nth_error] in Hn.
+  - injection Hn as <-. now rewrite Z.add_0_r.
+  - replace (j + Z.of_nat (S n)) with ((j + 1) + Z.of_nat n) by lia. now apply IH.
 Qed.
 
 Lemma piece_sig_nth tracks n : forall j i, (i < length tracks)%nat ->
@@ -123,10 +168,10 @@ Proof.
 Qed.
 
 (* ================================================================ per-track conversion and merge *)
-Lemma asig_track j n r : sig_track_ok r = true -> asig (j, n) (to_abs (set_channel r j)) = psig n 0 r.
+Lemma asig_track j n r : track_ok j r = true -> asig (j, n) (to_abs (set_channel r j)) = psig n 0 r.
 Proof.
   intros H. unfold ev_rel. rewrite asig_to_abs; unfold ev_rel; rewrite esig_set_channel; [reflexivity|].
-  now apply psig_sle.
+  now apply psig_sle with j.
 Qed.
 
 Definition setch (i : Z) (r : list msg) : list msg := set_channel r i.
@@ -138,39 +183,91 @@ Proof.
   apply asig_other_chan with j; [|lia]. apply to_abs_chan, set_channel_chan.
 Qed.
 
-Lemma asig_tracks tracks k : Forall (fun r => sig_track_ok r = true) tracks ->
-  forall j, asig k (concat (map to_abs (mapi_aux setch j tracks))) = piece_sig j tracks k.
+Lemma asig_tracks tracks k : forall j, tracks_ok j tracks = true ->
+  asig k (concat (map to_abs (mapi_aux setch j tracks))) = piece_sig j tracks k.
 Proof.
-  induction 1 as [|r ts Hr _ IH]; intros j; [reflexivity|]. cbn [mapi_aux map concat piece_sig].
+  induction tracks as [|r ts IH]; intros j H; [reflexivity|]. cbn [mapi_aux map concat piece_sig].
+  cbn [tracks_ok] in H. apply andb_prop in H. destruct H as [Hr Hts].
   rewrite asig_app. destruct (Z.eqb_spec (fst k) j) as [E|E].
   - rewrite asig_tracks_above by lia. rewrite app_nil_r. destruct k as [c n]. cbn [fst snd] in *. subst c.
     now apply asig_track.
-  - rewrite IH. replace (asig k (to_abs (setch j r))) with (@nil sigent); [reflexivity|].
+  - rewrite IH by exact Hts. replace (asig k (to_abs (setch j r))) with (@nil sigent); [reflexivity|].
     symmetry. apply asig_other_chan with j; [|exact E]. apply to_abs_chan, set_channel_chan.
 Qed.
 
 Lemma chs_eq tracks : chs tracks = mapi_aux setch 0 tracks.
 Proof. reflexivity. Qed.
 
-Lemma mapi_aux_In {A B} (f : Z -> A -> B) l : forall j y, In y (mapi_aux f j l) -> exists i x, In x l /\ y = f i x.
+Lemma mapi_aux_In {A B} (f : Z -> A -> B) l : forall j y, In y (mapi_aux f j l) ->
+  exists n x, nth_error l n = Some x /\ y = f (j + Z.of_nat n) x.
 Proof.
   induction l as [|a l IH]; intros j y H; [destruct H|]. cbn [mapi_aux] in H. destruct H as [<-|H].
-  - exists j, a. split; [now left|reflexivity].
-  - destruct (IH _ _ H) as (i & x & Hx & ->). exists i, x. split; [now right|reflexivity].
+  - exists 0%nat, a. split; [reflexivity|]. now rewrite Z.add_0_r.
+  - destruct (IH _ _ H) as (n & x & Hx & ->). exists (S n), x. split; [exact Hx|]. f_equal. lia.
+Qed.
+
+(* ---- time signatures: only track 0 holds some *)
+Definition piece_ts (tracks : list (list msg)) : list event :=
+  match tracks with [] => [] | r0 :: _ => tsig (ev_rel (setch 0 r0)) end.
+
+Lemma ats_no_ts l : (forall m, In m l -> is_ts m = false) -> ats (to_abs l) = [].
+Proof.
+  intros H. rewrite ats_filter, filter_none; [reflexivity|]. intros x Hx.
+  destruct (to_abs_In _ _ Hx) as [->|(m & t & f & Hm & _ & ->)]; [reflexivity|].
+  change (is_ts (set_time m t f)) with (is_ts m). now apply H.
+Qed.
+
+Lemma track_no_ts j r : track_ok j r = true -> j <> 0 -> forall m, In m (setch j r) -> is_ts m = false.
+Proof.
+  intros H Hj m Hm. unfold setch, set_channel in Hm. apply in_map_iff in Hm. destruct Hm as (m0 & <- & Hm0).
+  change (is_ts (set_chan m0 j)) with (is_ts m0). destruct (track_ok_parts j r H) as (_ & Ht & _).
+  specialize (Ht m0 Hm0). unfold msg_ok in Ht. destruct (is_ts m0) eqn:E; [|reflexivity].
+  rewrite (ts_not_wait m0 E), (ts_not_note m0 E) in Ht. cbn [orb andb] in Ht. apply Z.eqb_eq in Ht. contradiction.
+Qed.
+
+Lemma ats_tracks_above tracks : forall j, 0 < j -> tracks_ok j tracks = true ->
+  ats (concat (map to_abs (mapi_aux setch j tracks))) = [].
+Proof.
+  induction tracks as [|r ts IH]; intros j Hj H; [reflexivity|]. cbn [mapi_aux map concat].
+  cbn [tracks_ok] in H. apply andb_prop in H. destruct H as [Hr Hts].
+  rewrite ats_app, IH by (lia || exact Hts). rewrite app_nil_r. apply ats_no_ts. apply (track_no_ts j r Hr). lia.
+Qed.
+
+Lemma track_ts_sorted j r : track_ok j r = true -> ForallOrdPairs elt (tsig (ev_rel (setch j r))).
+Proof.
+  intros H. destruct (track_ok_parts j r H) as (_ & _ & _ & Hs & _). apply FOP_elt_tsv.
+  unfold setch, ev_rel. rewrite tsv_set_channel. unfold tsv. revert Hs. apply FOP_map. intros x y Hxy. exact Hxy.
+Qed.
+
+Lemma ats_tracks tracks : tracks_ok 0 tracks = true ->
+  ats (concat (map to_abs (mapi_aux setch 0 tracks))) = piece_ts tracks.
+Proof.
+  destruct tracks as [|r ts]; intros H; [reflexivity|]. cbn [mapi_aux map concat piece_ts].
+  cbn [tracks_ok] in H. apply andb_prop in H. destruct H as [Hr Hts].
+  rewrite ats_app, ats_tracks_above by (lia || exact Hts). rewrite app_nil_r.
+  apply ats_to_abs. now apply track_ts_sorted.
+Qed.
+
+Lemma piece_ts_sorted tracks : tracks_ok 0 tracks = true -> ForallOrdPairs elt (piece_ts tracks).
+Proof.
+  destruct tracks as [|r ts]; intros H; [constructor|]. cbn [tracks_ok] in H. apply andb_prop in H.
+  destruct H as [Hr _]. now apply track_ts_sorted.
 Qed.
 
 Section Piece.
   Variable tracks : list (list msg).
-  Hypothesis Hok : Forall (fun r => sig_track_ok r = true) tracks.
+  Hypothesis Hok : tracks_ok 0 tracks = true.
 
   Lemma track_wfr r : In r tracks -> wfr r = true.
-  Proof. intros H. rewrite Forall_forall in Hok. now apply sig_track_ok_parts, Hok. Qed.
+  Proof. now apply tracks_ok_wfr with 0. Qed.
 
   Lemma concat_wfa : wfa (concat (map to_abs (chs tracks))) = true.
   Proof.
     unfold wfa. apply forallb_forall. intros x Hx. apply in_concat in Hx. destruct Hx as (l & Hl & Hx).
     apply in_map_iff in Hl. destruct Hl as (c & <- & Hc). apply mapi_aux_In in Hc. destruct Hc as (i & r & Hr & ->).
-    assert (Hw : wfa (to_abs (set_channel r i)) = true) by (apply to_abs_wfa; rewrite wfr_set_channel; now apply track_wfr).
+    apply nth_error_In in Hr.
+    assert (Hw : wfa (to_abs (set_channel r (0 + Z.of_nat i))) = true)
+      by (apply to_abs_wfa; rewrite wfr_set_channel; now apply track_wfr).
     unfold wfa in Hw. rewrite forallb_forall in Hw. now apply Hw.
   Qed.
 
@@ -188,27 +285,38 @@ Section Piece.
     - now apply piece_sig_sle.
   Qed.
 
-  (* every message of the merged absolute list is a note or an INTERNAL cap *)
-  Lemma fe_abs_types x : In x (fe_abs tracks) -> is_note x = true \/ is_internal x = true.
+  Lemma fe_abs_ats : ats (fe_abs tracks) = piece_ts tracks.
+  Proof.
+    unfold fe_abs, merge_abs. cbn [app]. rewrite ats_sort_abs; rewrite chs_eq, ats_tracks by exact Hok.
+    - reflexivity.
+    - now apply piece_ts_sorted.
+  Qed.
+
+  (* every message of the merged absolute list is a note, an INTERNAL cap or a time signature of channel 0 *)
+  Lemma fe_abs_types x : In x (fe_abs tracks) ->
+    is_note x = true \/ is_internal x = true \/ (is_ts x = true /\ m_chan x = 0).
   Proof.
     intros Hx. eapply Permutation_in in Hx; [|symmetry; apply fe_abs_perm].
     apply in_concat in Hx. destruct Hx as (l & Hl & Hx).
     apply in_map_iff in Hl. destruct Hl as (c & <- & Hc). apply mapi_aux_In in Hc. destruct Hc as (i & r & Hr & ->).
-    destruct (to_abs_In _ _ Hx) as [->|(m & t & f & Hm & Hw & ->)]; [now right|]. left.
-    unfold set_channel in Hm. apply in_map_iff in Hm. destruct Hm as (m0 & <- & Hm0).
-    rewrite Forall_forall in Hok. destruct (sig_track_ok_parts r (Hok r Hr)) as (_ & Ht & _).
-    specialize (Ht m0 Hm0). unfold msg_ok in Ht. change (is_wait (set_chan m0 i)) with (is_wait m0) in Hw.
-    rewrite Hw in Ht. exact Ht.
+    destruct (to_abs_In _ _ Hx) as [->|(m & t & f & Hm & Hw & ->)]; [right; now left|].
+    unfold setch, set_channel in Hm. apply in_map_iff in Hm. destruct Hm as (m0 & <- & Hm0).
+    destruct (track_ok_parts _ r (tracks_ok_nth tracks 0 i r Hok Hr)) as (_ & Ht & _).
+    specialize (Ht m0 Hm0). unfold msg_ok in Ht. change (is_wait (set_chan m0 (0 + Z.of_nat i))) with (is_wait m0) in Hw.
+    rewrite Hw in Ht. cbn [orb] in Ht. apply orb_prop in Ht. destruct Ht as [Ht|Ht]; [now left|].
+    apply andb_prop in Ht. destruct Ht as [Ht Hi]. apply Z.eqb_eq in Hi. right. right. split; [exact Ht|].
+    cbn [set_time set_chan m_chan]. exact Hi.
   Qed.
 
   (* the relative list before normalise *)
   Lemma fe_rel0_ev : ev_rel (fe_rel0 tracks) = ev_abs (fe_abs tracks).
   Proof. apply to_rel_events; [apply fe_abs_tsorted|apply fe_abs_wfa]. Qed.
 
-  Lemma fe_rel0_types x : In x (fe_rel0 tracks) -> is_wait x = true \/ is_note x = true.
+  Lemma fe_rel0_types x : In x (fe_rel0 tracks) ->
+    is_wait x = true \/ is_note x = true \/ (is_ts x = true /\ m_chan x = 0).
   Proof.
     intros Hx. destruct (to_rel_aux_In _ _ _ _ Hx) as [H|(m & Hm & Hi & ->)]; [now left|]. right.
-    destruct (fe_abs_types m Hm) as [H|H]; [exact H|congruence].
+    destruct (fe_abs_types m Hm) as [H|[H|H]]; [now left|congruence|now right].
   Qed.
 
   Lemma fe_rel0_alt k : alt k false (fe_rel0 tracks) = true.
@@ -217,17 +325,25 @@ Section Piece.
     fold (asig k (fe_abs tracks)). rewrite fe_abs_sig. apply sig_ok_alt_bits. now apply piece_sig_ok.
   Qed.
 
-  Lemma type_flags x : is_wait x = true \/ is_note x = true -> is_ts x = false /\ is_ks x = false.
+  Lemma type_flags x : is_wait x = true \/ is_note x = true \/ (is_ts x = true /\ m_chan x = 0) -> is_ks x = false.
   Proof.
-    unfold is_wait, is_note, is_on, is_off, is_ts, is_ks, mtype_eqb. destruct (m_type x); cbn; intros [H|H];
-      try discriminate; split; reflexivity.
+    unfold is_wait, is_note, is_on, is_off, is_ts, is_ks, mtype_eqb. destruct (m_type x); cbn; intros [H|[H|[H _]]];
+      try discriminate; reflexivity.
+  Qed.
+
+  Lemma fe_rel0_ts_ok : ts_ok (NONE, NONE) (fe_rel0 tracks) = true.
+  Proof.
+    rewrite (ts_ok_tsig _ 0). fold (ev_rel (fe_rel0 tracks)). rewrite fe_rel0_ev. fold (ats (fe_abs tracks)).
+    rewrite fe_abs_ats. destruct tracks as [|r0 ts]; [reflexivity|]. cbn [piece_ts].
+    unfold ev_rel. rewrite <- ts_ok_tsig. unfold setch. rewrite ts_ok_set_channel.
+    cbn [tracks_ok] in Hok. apply andb_prop in Hok. destruct Hok as [H0 _]. now apply (track_ok_parts 0 r0 H0).
   Qed.
 
   Lemma fe_rel_timed : timed 0 (fe_rel tracks) = timed 0 (fe_rel0 tracks).
   Proof.
     apply normalise_wellformed.
     - apply fe_rel0_alt.
-    - apply no_ts_ok. intros m Hm. now apply type_flags, fe_rel0_types.
+    - apply fe_rel0_ts_ok.
     - apply no_ks_ok. intros m Hm. now apply type_flags, fe_rel0_types.
     - apply to_rel_wfr.
   Qed.
@@ -238,7 +354,8 @@ Section Piece.
   Lemma fe_rel_wfr : wfr (fe_rel tracks) = true.
   Proof. apply nonneg_normalise. Qed.
 
-  Lemma fe_rel_types x : In x (fe_rel tracks) -> is_wait x = true \/ is_note x = true.
+  Lemma fe_rel_types x : In x (fe_rel tracks) ->
+    is_wait x = true \/ is_note x = true \/ (is_ts x = true /\ m_chan x = 0).
   Proof.
     intros Hx. destruct (is_wait x) eqn:Ew; [now left|].
     destruct (In_timed _ 0 x Hx Ew) as [t Ht]. rewrite fe_rel_timed in Ht.
@@ -252,6 +369,14 @@ Section Piece.
     { rewrite fe_rel_ev. fold (asig k (fe_abs tracks)). apply fe_abs_sig. }
     assert (O : ForallOrdPairs sle (piece_sig 0 tracks k)) by now apply piece_sig_sle.
     unfold fe_sorted. rewrite asig_sort_abs; rewrite asig_to_abs; rewrite E; auto.
+  Qed.
+
+  Lemma fe_sorted_ats : ats (fe_sorted tracks) = piece_ts tracks.
+  Proof.
+    assert (E : tsig (ev_rel (fe_rel tracks)) = piece_ts tracks).
+    { rewrite fe_rel_ev. fold (ats (fe_abs tracks)). apply fe_abs_ats. }
+    assert (O : ForallOrdPairs elt (piece_ts tracks)) by now apply piece_ts_sorted.
+    unfold fe_sorted. rewrite ats_sort_abs; rewrite ats_to_abs; rewrite E; auto.
   Qed.
 
   Lemma fe_sorted_tsorted : tsorted (fe_sorted tracks) = true.
@@ -281,13 +406,14 @@ Section Piece.
     rewrite <- (maxt_perm _ _ fe_abs_perm). rewrite chs_eq. apply maxt_tracks. exact track_wfr.
   Qed.
 
-  (* every message handed to the pairing step is a note, or the cap at the end of the longest track *)
+  (* every message handed to the pairing step is a note, the cap at the end of the longest track, or a time signature
+     of channel 0 *)
   Lemma fe_sorted_types x : In x (fe_sorted tracks) ->
-    is_note x = true \/ (is_internal x = true /\ m_time x = piece_dur tracks).
+    is_note x = true \/ (is_internal x = true /\ m_time x = piece_dur tracks) \/ (is_ts x = true /\ m_chan x = 0).
   Proof.
     intros Hx. unfold fe_sorted in Hx. eapply Permutation_in in Hx; [|symmetry; apply sort_abs_perm].
     destruct (to_abs_In _ _ Hx) as [->|(m & t & f & Hm & Hw & ->)].
-    - right. split; [reflexivity|]. cbn [mk_internal m_time]. apply fe_rel_dur.
-    - left. destruct (fe_rel_types m Hm) as [H|H]; [congruence|exact H].
+    - right. left. split; [reflexivity|]. cbn [mk_internal m_time]. apply fe_rel_dur.
+    - destruct (fe_rel_types m Hm) as [H|[H|H]]; [congruence|now left|right; now right].
   Qed.
 End Piece.
